@@ -5,9 +5,9 @@ Run only when the reference tree is re-confirmed by hand: the table says which c
 import json, os, sys
 VERIF = os.path.dirname(os.path.dirname(os.path.abspath(__file__)))
 sys.path.insert(0, VERIF)
-from rules import facts as F, expand, pipeline, unroll  # noqa
+from rules import facts as F, expand, pipeline, unroll, specialise  # noqa
 
-out = {"closures": {}, "plain": {}, "pipelines": {}, "array_loops": {}}
+out = {"closures": {}, "plain": {}, "pipelines": {}, "array_loops": {}, "merged_tuples": {}}
 for release in (False, True):
     F.ensure_driver()
     import tempfile, shutil
@@ -23,6 +23,9 @@ for release in (False, True):
                 n = unroll.count_loops(j, rb)
                 if n:
                     out["array_loops"][j["key"]] = max(n, out["array_loops"].get(j["key"], 0))
+                m = specialise.count(j)
+                if m:
+                    out["merged_tuples"][j["key"]] = max(m, out["merged_tuples"].get(j["key"], 0))
         for k, v in pipeline.reference_pipelines(raw).items():
             for c, n in v.items():
                 out["pipelines"].setdefault(k, {})[c] = max(n, out["pipelines"].get(k, {}).get(c, 0))
